@@ -1,11 +1,11 @@
 #!/bin/sh
 # tools/lane.sh <N> <command…> — run a command in "lane" N: a private mount namespace in which /repo and /verif are
-# full private copies (made under /tmp/lanes/N, build output included, mtimes preserved so nothing rebuilds), so that
+# full private copies (made under /var/tmp/lanes/N, build output included, mtimes preserved so nothing rebuilds), so that
 # several seeded / benign patches can be trialled at once without touching the real /repo or each other's verdicts.
 # The copies are re-synchronised at every call: /repo from its working tree, /verif from its last commit.  Evidence written in a lane stays
 # in the lane: committed evidence only ever comes from /verif run against /repo itself.
 N="$1"; shift
-L=/tmp/lanes/$N
+L=/var/tmp/lanes/$N
 mkdir -p $L
 if [ ! -d $L/repo/.git ]; then
   cp -a /repo $L/repo
@@ -18,7 +18,7 @@ fi
 # work may be half-edited in the working tree); only files whose content changed are touched, so cargo and lake
 # rebuild only what changed.
 rsync -a --delete --exclude /target /repo/ $L/repo/
-EXP=/tmp/lanes/_export.$$
+EXP=/var/tmp/lanes/_export.$$
 rm -rf $EXP && mkdir -p $EXP && git -C /verif archive HEAD | tar -x -C $EXP
 rsync -rlpc --delete --exclude /work --exclude /replays --exclude '/harness/target*' --exclude /lean/.lake \
       --exclude /.lock --exclude /.lock-seed --exclude /.lock-lake $EXP/ $L/verif/
